@@ -117,3 +117,40 @@ def _starred(a):
   return PyTuple(a)
 
 
+
+
+# ---- _get_leaf_pspec: the per-leaf function of get_partition_spec / get_sharding --------------------------------------
+import z3 as _z3
+from pyvc.values import SV as _SV
+Leaf = opaque('TreeLeaf', is_str=False)
+PSpecOpt = opaque('PartitionSpecOrNone', is_str=False, nullable=True)
+has_gps = UFn('has_get_partition_spec', [Leaf], BOOL, "hasattr(x, 'get_partition_spec') (boxed value)")
+has_shape = UFn('has_shape', [Leaf], BOOL, "hasattr(x, 'shape') (any array-like: jax, numpy, ShapeDtypeStruct)")
+leaf_gps = UFn('leaf_get_partition_spec', [Leaf], PSpecOpt, 'x.get_partition_spec()')
+replicated = UFn('replicated_pspec', [], PSpecOpt, 'PartitionSpec()')
+
+
+def _leaf_hasattr(ex, v, name):
+  if name == 'get_partition_spec':
+    return ex.call_value(has_gps, [v], {})
+  if name == 'shape':
+    return ex.call_value(has_shape, [v], {})
+  return _SV(BOOL, _z3.Bool('leaf_has_' + name))
+
+
+Leaf.hasattr_hook = _leaf_hasattr
+# membership of an arbitrary leaf in some python class is unconstrained: array-likes need not be instances of any given class
+Leaf.isinstance_hook = lambda ex, v, names: _z3.Bool('leaf_isinstance_' + '_'.join(sorted(names)))
+Leaf.methods = {'get_partition_spec': lambda ex, v, a, kw: ex.call_value(leaf_gps, [v], {})}
+
+get_leaf_pspec = function(
+  F + '::_get_leaf_pspec', params=[('x', Leaf)], returns=PSpecOpt,
+  ensures=[
+    'implies(has_get_partition_spec(x), result == leaf_get_partition_spec(x))',           # boxed: its own names
+    'implies(not has_get_partition_spec(x) and has_shape(x), result == replicated_pspec())',   # unboxed arrays: replicated
+    'implies(not has_get_partition_spec(x) and not has_shape(x), result is None)',
+  ],
+  requires=['replicated_pspec() is not None'],
+  bindings={'jax.sharding.PartitionSpec': Handler('jax.sharding.PartitionSpec', lambda ex, a, kw: ex.call_value(replicated, [], {}) if not a else (_ for _ in ()).throw(OutsideSubset('PartitionSpec(args)')), 'PartitionSpec() is the replicated spec'),
+            'jax.Array': TypeTag('jax.Array'), 'jax.ShapeDtypeStruct': TypeTag('jax.ShapeDtypeStruct'), 'np.ndarray': TypeTag('np.ndarray')},
+  modifies=[], props=('C19',))
